@@ -1373,31 +1373,26 @@ fn c15_read_rr_soa_sk() {
     );
 }
 
-// ---- symbolic name structure (thorough) ----------------------------------------------------------
-
-// @harness props=C15 panics=C15,C01 kani="--no-assertion-reach-checks" tier=thorough mem=8 t=2400 fn="Reader::read_question,Name::try_from_compressed"
-//   bound="every 19-octet message with zero header (a pointer into it reaches a root label), 3 symbolic octets where the QNAME starts, then [0,1,0,1]: every QNAME structure the 3 octets can start (root, label of 1 or 2, longer label, pointer, reserved types), QTYPE/QCLASS present or cut short accordingly; unwind 8"
-//   stubs="S7" sym="s:[u8;3]"
-#[kani::proof]
-#[kani::unwind(8)]
-#[kani::stub(arrayvec::ArrayVec::try_extend_from_slice, try_extend_model)]
-fn c15_read_question_sym3() {
-    let s: [u8; 3] = kani::any();
-    let b = [0, 0, 0, 0, 0, 0, 0, 0, 0, 0, 0, 0, s[0], s[1], s[2], 0, 1, 0, 1];
-    let o = read_question_cut(&b);
-    kani::cover!(o.ok && o.to_eom && !o.name_ptr, "one-label question ending at the end of the message read");
-    kani::cover!(o.ok && o.name_ptr, "question whose QNAME is a pointer into the header read");
-    kani::cover!(o.late_err, "QNAME decodes, QCLASS does not fit");
-}
-
-// (A 17-octet message with 5 symbolic body octets ran CBMC out of memory after
-// 600 s of symbolic execution, 2.5 M steps.)
-// Not here: PeekRr::owner / read_rr on an owner with symbolic structure.  A
-// harness with 3 symbolic owner octets in front of concrete fixed fields
-// (peek_rr, owner(), drop) was still in symbolic execution after 43 min at
-// 7.3 GB and was removed; symbolic name structure is covered for the name
-// decoder alone by C14 (name_wire) and for the skipping operations by the
-// "any" harnesses above.
+// ---- symbolic name structure: not covered here ----------------------------------------------
+//
+// Measured attempts to push symbolic name STRUCTURE through the allocating
+// reader operations, all removed:
+//  * read_question on a fully symbolic 17-octet message: no end of symbolic
+//    execution after 16 min, 17 GB;
+//  * the same with a zero header and 5 symbolic body octets: CBMC out of
+//    memory after 600 s of symbolic execution (2.5 M steps);
+//  * zero header, 3 symbolic octets where the QNAME starts, concrete tail:
+//    15.9 GB after 16 min, no verdict;
+//  * peek_rr + owner() with 3 symbolic owner octets in front of concrete
+//    fixed fields: still in symbolic execution after 43 min at 7.3 GB;
+//  * one symbolic label-length octet in NS RDATA (read_rr + peek/parse): no
+//    end of symbolic execution in 10 min;
+//  * both RDLENGTH octets symbolic on name-bearing RDATA: 10 min / 11 GB, no
+//    verdict.
+// Symbolic name structure is covered for the name decoder alone by C14
+// (name_wire: every buffer of 3..7 octets, every start offset) and for the
+// skipping / peeking operations by the "any" harnesses above (every message
+// up to 48 octets).
 
 // --------------------------------------------------------------------------
 // C09 side harness: the TTL clamp over all u32
